@@ -11,8 +11,48 @@ def _setup_path():
         sys.path.insert(0, src)
 
 
+def _scratch_root():
+    """One scratch root per top-level invocation: every worker process, forked child and fresh interpreter of this
+    invocation creates its run directories inside it, and the invocation removes it when it ends - forked pool
+    workers leave through os._exit and cannot clean up after themselves. Roots of dead invocations are swept."""
+    import atexit
+    import shutil
+    import signal
+    import tempfile
+    if os.environ.get("TOASTYSIM_SCRATCH") and os.path.isdir(os.environ["TOASTYSIM_SCRATCH"]):
+        return
+    base = "/dev/shm" if os.path.isdir("/dev/shm") and os.access("/dev/shm", os.W_OK) else tempfile.gettempdir()
+    for name in os.listdir(base):
+        if name.startswith("toastysim-root-"):
+            try:
+                pid = int(name.split("-")[2])
+                os.kill(pid, 0)
+            except (ValueError, IndexError, PermissionError):
+                continue
+            except ProcessLookupError:
+                shutil.rmtree(os.path.join(base, name), ignore_errors=True)
+    root = tempfile.mkdtemp(prefix="toastysim-root-%d-" % os.getpid(), dir=base)
+    os.environ["TOASTYSIM_SCRATCH"] = root
+    owner = os.getpid()
+
+    def cleanup():
+        if os.getpid() == owner:
+            shutil.rmtree(root, ignore_errors=True)
+
+    atexit.register(cleanup)
+
+    def on_term(signum, frame):
+        raise SystemExit(143)
+
+    try:
+        signal.signal(signal.SIGTERM, on_term)
+    except ValueError:
+        pass
+
+
 def main(argv=None):
     _setup_path()
+    _scratch_root()
     ap = argparse.ArgumentParser(prog="check")
     ap.add_argument("prop")
     ap.add_argument("--tier", default=os.environ.get("VERIF_TIER", "quick"), choices=["quick", "thorough"])
